@@ -2,6 +2,7 @@ import GraafVerif.Driver.Common
 import GraafVerif.Driver.ReprDesc
 import GraafVerif.Driver.H14
 import GraafVerif.Model.ConvChain
+import GraafVerif.Model.ConvEq
 import GraafVerif.Model.Gen
 /-!
 Driver handlers for property C16 (ops the harness module `ops/c16.rs` emits).
@@ -78,19 +79,64 @@ def chainOracle (observed : List V) : Option String :=
             else go (i + 1) vs
       go 1 rest
 
+/-! ### `==` checks (round 4): trailing output value `[eq [b …] …]`, one sublist per digraph -/
+
+/-- split the trailing `[eq …]` value off an observation -/
+def splitEq (observed : List V) : List V × Option (List V) :=
+  match observed.getLast? with
+  | some (.l (.a "eq" :: subs)) => (observed.dropLast, some subs)
+  | _ => (observed, none)
+
+/-- The model's prediction of the `==` checks of one digraph: `Conv.eqChecks` replayed literally up
+to order 10, beyond that `true` by `C16.eqChecks_true` (the model representation is canonical). -/
+def eqModel (x : Any) : V :=
+  let k := match x with | .wl _ => 1 | _ => 4
+  .l ((if x.order ≤ 10 then eqChecks x else List.replicate k true).map V.ofBool)
+
+def eqValue (xs : List Any) : V := .l (V.a "eq" :: xs.map eqModel)
+
+/-- every `==` check must be `true` (`count` digraphs were observed) -/
+def eqOracle (subs : Option (List V)) (count : Nat) : Option String :=
+  match subs with
+  | none => some "the == checks are missing from the observation"
+  | some subs =>
+    if subs.length ≠ count then some s!"{subs.length} == check lists for {count} digraphs"
+    else
+      let bad := subs.zipIdx.filterMap (fun p =>
+        match p.1 with
+        | .l bs => (bs.zipIdx.find? (fun q => !(q.1 == V.a "true"))).map (fun q => (p.2, q.2, q.1))
+        | _ => some (p.2, 0, V.a "unreadable"))
+      match bad with
+      | [] => none
+      | (i, j, v) :: _ =>
+        some (if j = 0 then s!"digraph {i} != the same digraph rebuilt by empty + add_arc over its arcs ({v})"
+              else s!"digraph {i} != its round trip through another representation (check {j}: {v})")
+
+def outOfAny : Option Any → List V
+  | none => [V.a "panic"]
+  | some x => [obsAny x, eqValue [x]]
+
 def hChain : Handler := fun _ args observed =>
   match args with
   | [desc, tags] => do
     let d ← GDesc.parse desc
     let tags ← V.listOf? V.atom? tags
     let src := build d
-    let model ← match src with
-      | none => some [V.a "panic"]
-      | some s => (runChain s tags).map (fun rs => obsAny s :: renderChain rs)
+    let (obsMain, obsEq) := splitEq observed
     let contiguous := d.verts == List.range d.order && d.order > 0
     let valid := d.arcs.all (fun a => a.1 != a.2 && a.1 < d.order && a.2 < d.order)
     let applicable := contiguous && valid
-    let propFail := if applicable then chainOracle observed else none
+    -- outside the property (non-contiguous map) nothing is claimed about `==`: echo the observation
+    let eqOf (xs : List Any) : List V :=
+      if applicable then [eqValue xs] else (match obsEq with | some subs => [.l (V.a "eq" :: subs)] | none => [])
+    let model ← match src with
+      | none => some [V.a "panic"]
+      | some s => (runChain s tags).map (fun rs => obsAny s :: renderChain rs ++ eqOf (s :: rs.filterMap id))
+    let propFail := if applicable then
+        (match chainOracle obsMain with
+         | some why => some why
+         | none => eqOracle obsEq obsMain.length)
+      else none
     let panicked := observed.contains (V.a "panic")
     let tl := [d.repr, (if tags.length ≥ 2 then "chain" else "single"), sizeTag d.order,
                if applicable then "contiguous" else "outside-property",
@@ -133,7 +179,8 @@ def runFromRows (repr : String) (rows : V) (extra : List String) (observed : Lis
     if repr == "al" || repr == "am" then
       let rows0 ← V.listOf? (V.listOf? V.nat?) rows
       let rows := rows0.map Gen.ssetOf
-      let model := if repr == "al" then outOf obsAL (AL.fromRows rows) else outOf obsAM (AM.fromRows rows)
+      let model := if repr == "al" then outOfAny ((AL.fromRows rows).map .al) else outOfAny ((AM.fromRows rows).map .am)
+      let (obsMain, obsEq) := splitEq observed
       let n := rows.length
       let arcs := rows.zipIdx.flatMap (fun p => p.1.map (fun v => (p.2, v)))
       let selfLoop := arcs.any (fun a => a.1 == a.2)
@@ -141,11 +188,13 @@ def runFromRows (repr : String) (rows : V) (extra : List String) (observed : Lis
       let want := if n = 0 || selfLoop || oob then none else some (n, arcs.map (fun a => (a.1, a.2, (1 : Int))))
       let mixed := rows.zipIdx.any (fun p => p.1.any (· ≥ n) && p.1.any (fun v => v < n && v != p.2))
       let tags := extra ++ [repr, sizeTag n, if n = 0 then "empty" else if selfLoop then "self-loop" else if oob then (if mixed then "head-out-of-range-mixed" else "head-out-of-range") else "valid"]
-      pure (classify observed model (expectObs want false observed) (nt := want.isSome && !arcs.isEmpty) tags)
+      let pf := match expectObs want false obsMain with | some why => some why | none => if want.isSome then eqOracle obsEq 1 else none
+      pure (classify observed model pf (nt := want.isSome && !arcs.isEmpty) tags)
     else if repr == "wu" || repr == "wi" then
       let rows0 ← V.listOf? (V.listOf? (V.pair? V.nat? V.int?)) rows
       let rows := rows0.map wmapOf
-      let model := outOf obsWL (WL.fromRows rows)
+      let model := outOfAny ((WL.fromRows rows).map .wl)
+      let (obsMain, obsEq) := splitEq observed
       let n := rows.length
       let arcs := rows.zipIdx.flatMap (fun p => p.1.map (fun e => (p.2, e.1, e.2)))
       let selfLoop := arcs.any (fun a => a.1 == a.2.1)
@@ -153,7 +202,8 @@ def runFromRows (repr : String) (rows : V) (extra : List String) (observed : Lis
       let want := if n = 0 || selfLoop || oob then none else some (n, arcs)
       let mixed := rows.zipIdx.any (fun p => p.1.any (fun e => e.1 ≥ n) && p.1.any (fun e => e.1 < n && e.1 != p.2))
       let tags := extra ++ [repr, sizeTag n, if n = 0 then "empty" else if selfLoop then "self-loop" else if oob then (if mixed then "head-out-of-range-mixed" else "head-out-of-range") else "valid"]
-      pure (classify observed model (expectObs want true observed) (nt := want.isSome && !arcs.isEmpty) tags)
+      let pf := match expectObs want true obsMain with | some why => some why | none => if want.isSome then eqOracle obsEq 1 else none
+      pure (classify observed model pf (nt := want.isSome && !arcs.isEmpty) tags)
     else none
 
 def hFromRows : Handler := fun _ args observed =>
@@ -180,18 +230,21 @@ def hFromRowsLazy : Handler := fun _ args observed =>
 def runFromArcs (repr : String) (arcs : V) (extra : List String) (observed : List V) : Option Verdict := do
     let arcs ← V.listOf? (V.pair? V.nat? V.nat?) arcs
     let model ← match repr with
-      | "mx" => some (outOf obsMX (MX.fromArcs arcs))
-      | "el" => some (outOf obsEL (EL.fromArcs arcs))
+      | "mx" => some (outOfAny ((MX.fromArcs arcs).map .mx))
+      | "el" => some (outOfAny ((EL.fromArcs arcs).map .el))
       | _ => none
+    let (obsMain, obsEq) := splitEq observed
     let selfLoop := arcs.any (fun a => a.1 == a.2)
     let n := maxId arcs + 1
     let canon := H14.canonArcs arcs
     let dup := canon.length < arcs.length
     let propFail :=
-      if selfLoop then expectObs none false observed
-      else if arcs.isEmpty then (if repr == "mx" then expectObs none false observed else none)
-      else expectObs (some (n, canon.map (fun a => (a.1, a.2, (1 : Int))))) false observed
-    let tags := extra ++ [repr, sizeTag n, if selfLoop then "self-loop" else if arcs.isEmpty then "empty" else if dup then "valid-dups" else "valid"]
+      if selfLoop then expectObs none false obsMain
+      else if arcs.isEmpty then (if repr == "mx" then expectObs none false obsMain else if obsMain == [V.a "panic"] then none else eqOracle obsEq 1)
+      else match expectObs (some (n, canon.map (fun a => (a.1, a.2, (1 : Int))))) false obsMain with
+        | some why => some why
+        | none => eqOracle obsEq 1
+    let tags := extra ++ [repr, sizeTag n, (if n % 64 = 0 then "order%64=0" else if n % 8 = 0 then "order%8=0" else "order%8!=0"), if selfLoop then "self-loop" else if arcs.isEmpty then "empty" else if dup then "valid-dups" else "valid"]
     pure (classify observed model propFail (nt := !selfLoop && !arcs.isEmpty) tags)
 
 def hFromArcs : Handler := fun _ args observed =>
